@@ -209,6 +209,7 @@ class Engine:
         self.ufs = {}
         self.contracts = {}  # 'module:qualname' -> contract dict
         self.contracts_all = {}  # unit id -> unit
+        self._seen_obs = set()
         self.trusted = set()
         self.unit = "?"
         self.prop = "?"
@@ -299,6 +300,23 @@ class Engine:
             g = z3.BoolVal(goal)
         else:
             g = V.bool_term(goal)
+        import re as _re
+
+        meta = dict(meta or {})
+        meta.setdefault("level", getattr(self, "sat_level", 0))
+        # source line numbers are metadata, not part of the obligation's name: harmless edits
+        # (comments, blank lines) must not rename obligations
+        mline = _re.search(r"@(\d+)", label)
+        if mline:
+            meta.setdefault("line", int(mline.group(1)))
+            label = _re.sub(r"@\d+", "", label)
+        # the same goal under the same hypotheses is recorded once (lazily evaluated array
+        # elements re-run their safety checks on every read)
+        dk = (self.unit, kind, label, g.get_id(), len(state.pc), state.pc[-1].get_id() if state.pc else 0)
+        if dk in self._seen_obs:
+            state.pc.append(g)
+            return
+        self._seen_obs.add(dk)
         parts = _split_goal(g)
         if len(parts) > 1:
             for i, pg in enumerate(parts):
@@ -309,11 +327,10 @@ class Engine:
         self.counter[("ob", name)] = n + 1
         if n:
             name = f"{name}#{n}"
-        meta = dict(meta or {})
-        meta.setdefault("level", getattr(self, "sat_level", 0))
         ob = Obligation(name, kind, state.hyps(), g, meta)
         self.obligations.append(ob)
-        state.pc.append(g)
+        if not z3.is_false(g):
+            state.pc.append(g)  # assert, then assume (a literal False is never assumed)
         return ob
 
     def add_decided(self, kind, label, status, backend, time_s=0.0, detail=None, model=None):
@@ -408,8 +425,11 @@ class Engine:
                 return self.builtins["__modules__"][base]
             return ModuleV(base)
         mods = self.builtins.get("__modules__", {})
+        if src.startswith("speckit.") and os.path.exists(os.path.join(self.repo, src.replace(".", "/") + ".py")):
+            src = "." + src.split(".", 1)[1]
+            mod = self.module("speckit/__init__.py") if os.path.exists(os.path.join(self.repo, "speckit/__init__.py")) else mod
         if src.startswith("."):
-            rel = os.path.join(os.path.dirname(mod.relname), src.lstrip(".") + ".py")
+            rel = os.path.join(os.path.dirname(mod.relname), src.lstrip(".").replace(".", "/") + ".py")
             if os.path.exists(os.path.join(self.repo, rel)):
                 m2 = self.module(rel)
                 if attr in m2.functions:
@@ -700,6 +720,7 @@ class Engine:
             raise Unsupported("store into non-reference value")
         obj = state.heap[base.loc]
         if isinstance(obj, DictV):
+            self._last_raw_key = idx
             key = self.dict_key(idx)
             d = dict(obj.d)
             d[key] = v
@@ -1387,6 +1408,10 @@ class Engine:
             return False
         if isinstance(a, Ref) and isinstance(b, Ref):
             return a.loc == b.loc
+        if isinstance(a, Ref) and isinstance(b, (ArrV, ListV, DictV, ObjV)):
+            a = st.heap[a.loc]
+        if isinstance(b, Ref) and isinstance(a, (ArrV, ListV, DictV, ObjV)):
+            b = st.heap[b.loc]
         if isinstance(a, Opaque) and isinstance(b, Opaque):
             return a.name == b.name
         if isinstance(a, Closure) and isinstance(b, Closure):
@@ -1397,6 +1422,8 @@ class Engine:
             return False
         if isinstance(a, (bool, int, str)):
             return a == b
+        if isinstance(a, (ArrV, ListV, DictV, ObjV, tuple)):
+            return a is b  # by-value snapshots: the very same (unmodified) object
         raise Unsupported(f"identity of {a!r} / {b!r}")
 
     def contains(self, st, container, x):
